@@ -47,6 +47,7 @@ class Contract:
         self.ensures = []
         self.invariants = {}  # loop ordinal -> [Clause]
         self.unroll = {}  # loop ordinal -> True
+        self.afters = {}  # loop ordinal -> [Clause]: loop summary proved on every exit path, then the only thing known
         self.assigns = None  # None = unspecified (anything), [] = pure
         self.raises_never = False
         self.raises_iff = []  # (exc name, Clause)
@@ -89,6 +90,10 @@ class Contract:
                 k = ast.literal_eval(args[0])
                 for e in args[1:]:
                     self.invariants.setdefault(k, []).append(Clause("inv%d" % k, e, st.lineno, file))
+            elif f == "after":
+                k = ast.literal_eval(args[0])
+                for e in args[1:]:
+                    self.afters.setdefault(k, []).append(Clause("after%d" % k, e, st.lineno, file))
             elif f == "unroll":
                 for a in args:
                     self.unroll[ast.literal_eval(a)] = True
